@@ -94,3 +94,29 @@ Print Assumptions C11_strictly_downhill.
 Print Assumptions C11_step_in_range.
 Print Assumptions C11_step_positive.
 Print Assumptions C11_dcsrch_can_return_nan.
+
+(* Non-vacuity of C11_step_in_range / C11_step_positive: f(x) = x^2 on [-5, 5], start x = 1 (f0 = 1, g0 = 2), direction d = -1/2,
+   iteration 0, the DCSRCH model as line-search routine: the search evaluates x = 1/2 only (inside the box), accepts the step 1,
+   which is > 0, <= stpmax = 1, and f(1/2) = 1/4 < 1.  The hypotheses about the start (in the box, no NaN, finite direction, f0 the
+   value at x) hold by computation; the remaining hypothesis, "objective and gradient do not distinguish points that np.array_equal
+   identifies", is about U alone (x*x and 2*x give the same value for +0 and -0) and is not part of this example. *)
+Definition U11 : user :=
+  mkuser (fun x => Ok (mul (hd 0%float x) (hd 0%float x))) (fun x => Ok [mul 2%float (hd 0%float x)]) None None None
+         (Ok 0%float) (Ok 0%float) false (fun _ => []) (fun _ _ _ => Ok []).
+Definition K11 : kern :=
+  mkkern (fun x _ _ _ => map (fun v => mul v 0.5%float) x) (dcs_model Dcsrch.sq_mul) (fun a b => mul (hd 0%float a) (hd 0%float b)).
+Definition c11 : cfg :=
+  mkcfg [1%float] [(-5)%float] [5%float] 3 None 0%float (TolConst 0x1.0c6f7a0b5ed8dp-20%float) 5 10 20 1e8%float
+        0x1.0624dd2f1a9fcp-10%float 0x1.ccccccccccccdp-1%float 0x1.999999999999ap-4%float 0x1.fb4c5b3a1b5bcp-53%float None.
+Definition t11 : SF.st vec float vec float := SF.mk _ _ _ _ [1%float] (Some 1%float) (Some [2%float]) 1 1 fone.
+Example C11_example :
+  exists t1 tr, line_search U11 K11 c11 [1%float] 1%float [2%float] [(-0.5)%float] 0 20 t11 = (Ok (Some 1%float, t1), tr) /\
+    tr = [EvF [0.5%float] (Ok 0.25%float); EvG [0.5%float] (Ok [1%float])] /\
+    ltb 0 1%float = true /\ leb 1%float (stpmax_of c11 [1%float] [(-0.5)%float] 0) = true /\
+    inbox [1%float] (lb c11) (ub c11) /\ nonan [1%float] /\ Forall (fun di => FloatVec.is_finite di = true) [(-0.5)%float] /\
+    (exists fv0, uf U11 [1%float] = Ok fv0 /\ 1%float = mul fv0 (SF.scale _ _ _ _ t11)).
+Proof.
+  eexists. eexists. split; [vm_compute; reflexivity|]. split; [reflexivity|]. split; [reflexivity|]. split; [reflexivity|].
+  split; [cbn; split; [right; split; reflexivity|exact I]|]. split; [repeat constructor|]. split; [repeat constructor|].
+  exists 1%float. split; reflexivity.
+Qed.
